@@ -19,6 +19,11 @@ PAIR_RULE = ("pairs (old,new) of schemas: random schemas (0..4 tables, 1..5 colu
              "sqlize.FromString, white-box state after load and after Diff, StringUp/StringDown/StringUp compared with the Lean model; the migration "
              "text printed by Go is parsed by Spec/Grammar and executed on the reference engine (Spec.c01/c02/c03/c13). non-trivial = non-empty "
              "migration; distinct by (config, old script, new script)")
+SCRIPT_RULE = ("well-formed DDL scripts: random walks of 1..14 statements from the empty schema over createTable / addColumn [FIRST|AFTER] / "
+               "dropColumn / modifyColumn / renameColumn / addPk / addFk / dropFk / createIndex [USING] / dropIndex / renameIndex / dropTable, "
+               "multi-table with positional adds interleaved across tables; each loaded in one call, one statement per call (random keyword case "
+               "and type aliases) and a random 3-way split; then a malformed text (5 kinds) must be refused without changing the model; hand-written "
+               "witness scripts first. non-trivial = more than one statement; distinct by (config, script)")
 PAIR_TB = [
     "hand-written model Impl/{Element,Diff,Emit,Render,ReaderMysql}.lean, tied by correspondence on generated pairs only",
     "regenerated facts: statement templates of sql-templates/*.go (factgen, go/ast) are the ones the model renders with",
@@ -100,5 +105,35 @@ PROPS = {
         "assumptions": PAIR_ASSUME,
         "explanation": "Proved for all column lists: default setting ends in the models' order; with the option the walk emits the same statements "
                        "without positional clause, and executing them keeps surviving columns in place and appends the added ones.",
+    },
+
+    "C05": {
+        "level": "proof",
+        "lean_modules": ["SqlizeModel.Props.C05"],
+        "theorems": ["Sqlize.C05.split_invariant", "Sqlize.C05.calls_invariant", "Sqlize.C05.rejected_unchanged", "Sqlize.C05.parse_before_edit"],
+        "suites": [{"name": "script"}],
+        "corr_points": ["load", "state", "dump"],
+        "rule": SCRIPT_RULE,
+        "trusted_base": COMMON_TB + PAIR_TB,
+        "assumptions": ["scripts are well-formed on the reference engine and start from the empty schema"],
+        "explanation": "Proved for all inputs: split invariance of the reader model (state incl. cursor and pending position) and the rejection "
+                       "clause (by definition + regenerated fact that every Parser* function parses before it edits). The fidelity clause "
+                       "(Sqlize.C05.Statement_partial) is decided by correspondence on white-box state + dump, and by the executable predicate "
+                       "(dump -> grammar -> reference engine = independent reading of the script) on every case.",
+    },
+    "C09": {
+        "level": "proof",
+        "lean_modules": ["SqlizeModel.Props.C09"],
+        "theorems": ["Sqlize.C09.column_up_total", "Sqlize.C09.column_down_total", "Sqlize.C09.index_up_total"],
+        "suites": [{"name": "script"}, {"name": "pair"}],
+        "corr_points": ["load", "state", "dump", "dump-down", "load-old", "load-new", "Diff", "StringUp", "StringDown"],
+        "rule": SCRIPT_RULE + " | " + PAIR_RULE + " | C09: any panic recovered from a sqlize frame (load, state, dump up/down, hash, split loads, "
+                "rejection of malformed text, Diff, StringUp/StringDown) on a well-formed input is a violation; a Go panic where the model "
+                "returns a value is also a correspondence break",
+        "trusted_base": COMMON_TB + PAIR_TB + ["panics inside the third-party parsers on arbitrary bytes cannot be modelled: that clause is searched (malformed stream), not proved"],
+        "assumptions": ["scripts are well-formed on the reference engine"],
+        "explanation": "Proved for all states: the emitters' explicit panic sites are exactly (create of an empty table, redefined index of an "
+                       "unprintable kind); reachability of panic sites from well-formed scripts (map consistency) is decided by correspondence: "
+                       "the model returns Except.error exactly where Go panics, and every generated case is checked for recovered panics.",
     },
 }
